@@ -29,6 +29,7 @@ RULE = ('constructors classical / AIR / SA / root-node / pairwise on small Poiss
         'attribute diff; input bytes; 7 storage formats; seed twice.  Non-trivial: >= 2 levels and a non-empty history.')
 RULE += (' '
          'Constructors incl. Jacobi (local / block / filtered), Richardson, energy smoothing, evolution strength, candidate improvement, relaxation-type coarse solvers, pairwise.')
+THOROUGH_ROUNDS = 5
 TRUSTED = ['SciPy format conversions', 'NumPy global RNG']
 PARTIAL = ['setup purity / format independence / seed reproducibility: correspondence only']
 # attributes that solving / smoothing may create (the caches of the model); anything else is reported
